@@ -256,6 +256,13 @@ def run(ctx):
                     ctx.violation(path=label, value=repr(x), observed=show(o), required="a value in range or OverflowError")
                 continue
             y = o[1]
+            # never a clamped result: the ticks are the exact value's (within a tick of rounding), so a value whose exact tick count is
+            # outside the range must have been refused
+            from fractions import Fraction as _Fr
+            exact = _Fr(x) * (1 << 64)
+            if abs(_Fr(y.ticks) - exact) > (1 if "*" in label else _Fr(1, 2) + _Fr(1, 1 << 40)):
+                ctx.violation(path=label, value=repr(x), observed=f"ticks {y.ticks}", required=f"OverflowError or the tick nearest to the exact count {float(exact)!r}; never a clamped value")
+                continue
             r = outcome(lambda: (type(y).from_tuple(y.to_tuple()).ticks, _pickle.loads(_pickle.dumps(y)).ticks, type(y).from_ticks(y.ticks).ticks))
             if not (I128_MIN <= y.ticks <= I128_MAX) or r != ("ok", (y.ticks, y.ticks, y.ticks)):
                 ctx.violation(path=label, value=repr(x), observed=f"ticks {y.ticks}; tuple / pickle / from_ticks round trip: {show(r)[:120]}",
